@@ -1,4 +1,5 @@
 //@include prelude.rs
+//@include rowmajor.rs
 verus! {
 // Real `Shape` / `Data` enums and `Tensor` struct (R5: nothing dropped but derives).  These units decide, for EVERY shape, that
 // flatten / get_flat / get_triple / reshape keep the row-major element sequence and record a shape that matches the data.
@@ -9,14 +10,6 @@ pub enum Data {
 }
 pub struct Tensor { pub shape: Shape, pub data: Data }
 
-/// position of cell (c, h, w) of a C x H x W block in the row-major sequence
-pub open spec fn rm(c: int, h: int, w: int, hh: int, ww: int) -> int { (c * hh + h) * ww + w }
-/// f is the row-major element sequence of the rectangular 3-D data d
-pub open spec fn is_row_major(f: Seq<f32>, d: Seq<Vec<Vec<f32>>>, cc: int, hh: int, ww: int) -> bool {
-    &&& rect3(d, cc, hh, ww)
-    &&& f.len() == cc * hh * ww
-    &&& forall|c: int, h: int, w: int| 0 <= c < cc && 0 <= h < hh && 0 <= w < ww ==> f[rm(c, h, w, hh, ww)] == #[trigger] d[c]@[h]@[w]
-}
 /// type invariant assumed of inputs: the recorded shape matches the data; spatial tensors are non-empty and their element count fits
 pub open spec fn wf(t: Tensor) -> bool {
     match (t.shape, t.data) {
@@ -27,53 +20,6 @@ pub open spec fn wf(t: Tensor) -> bool {
     }
 }
 // algebraic identities of the layout (no range conditions)
-pub proof fn lemma_prod_fits(a: int, b: int, c: int)
-    requires a >= 0, b >= 0, c >= 1
-    ensures 0 <= a * b <= a * b * c
-{ assert(0 <= a * b) by (nonlinear_arith) requires a >= 0, b >= 0; assert(a * b <= a * b * c) by (nonlinear_arith) requires a * b >= 0, c >= 1; }
-pub proof fn lemma_rm_alg(c: int, h: int, w: int, hh: int, ww: int)
-    ensures c * hh * ww == rm(c, 0, 0, hh, ww), rm(c, h, 0, hh, ww) + w == rm(c, h, w, hh, ww), rm(c, h, 0, hh, ww) + ww == rm(c, h + 1, 0, hh, ww),
-        rm(c, hh, 0, hh, ww) == rm(c + 1, 0, 0, hh, ww), (c + 1) * hh * ww == c * hh * ww + hh * ww
-{
-    assert(c * hh * ww == (c * hh) * ww) by (nonlinear_arith);
-    assert((c * hh + h + 1) * ww == (c * hh + h) * ww + ww) by (nonlinear_arith);
-    assert((c * hh + hh) * ww == ((c + 1) * hh) * ww) by (nonlinear_arith);
-    assert((c + 1) * hh * ww == c * hh * ww + hh * ww) by (nonlinear_arith);
-}
-// index arithmetic of the row-major layout
-pub proof fn lemma_rm(c: int, h: int, w: int, cc: int, hh: int, ww: int)
-    requires 0 <= c < cc, 0 <= h < hh, 0 <= w < ww
-    ensures 0 <= c * hh * ww <= rm(c, h, w, hh, ww) < (c + 1) * hh * ww <= cc * hh * ww,
-        c * hh * ww == rm(c, 0, 0, hh, ww), rm(c, h, 0, hh, ww) + w == rm(c, h, w, hh, ww), rm(c, h, 0, hh, ww) + ww == rm(c, h + 1, 0, hh, ww),
-        rm(c, hh, 0, hh, ww) == rm(c + 1, 0, 0, hh, ww)
-{
-    assert(c * hh * ww == (c * hh) * ww) by (nonlinear_arith);
-    assert((c * hh + h) * ww == (c * hh) * ww + h * ww) by (nonlinear_arith);
-    assert((c * hh + h + 1) * ww == (c * hh + h) * ww + ww) by (nonlinear_arith);
-    assert(h * ww + w < hh * ww) by (nonlinear_arith) requires 0 <= h < hh, 0 <= w < ww;
-    assert((c + 1) * hh * ww == c * hh * ww + hh * ww) by (nonlinear_arith);
-    assert((c * hh + hh) * ww == ((c + 1) * hh) * ww) by (nonlinear_arith);
-    assert(((c + 1) * hh) * ww == (c + 1) * hh * ww) by (nonlinear_arith);
-    assert((c + 1) * hh * ww <= cc * hh * ww) by (nonlinear_arith) requires c + 1 <= cc, hh >= 0, ww >= 0;
-    assert(0 <= c * hh * ww) by (nonlinear_arith) requires c >= 0, hh >= 0, ww >= 0;
-    assert(0 <= h * ww) by (nonlinear_arith) requires h >= 0, ww >= 0;
-}
-// two cells with the same position are the same cell (the layout is injective): used to show that pushes fill distinct positions
-pub proof fn lemma_rm_order(c1: int, h1: int, w1: int, c2: int, h2: int, w2: int, cc: int, hh: int, ww: int)
-    requires 0 <= c1 < cc, 0 <= h1 < hh, 0 <= w1 < ww, 0 <= c2 < cc, 0 <= h2 < hh, 0 <= w2 < ww,
-        c1 < c2 || (c1 == c2 && h1 < h2) || (c1 == c2 && h1 == h2 && w1 < w2)
-    ensures rm(c1, h1, w1, hh, ww) < rm(c2, h2, w2, hh, ww)
-{
-    lemma_rm(c1, h1, w1, cc, hh, ww);
-    lemma_rm(c2, h2, w2, cc, hh, ww);
-    if c1 < c2 {
-        assert((c1 + 1) * hh * ww <= c2 * hh * ww) by (nonlinear_arith) requires c1 + 1 <= c2, hh >= 0, ww >= 0;
-    } else if h1 < h2 {
-        assert((c1 * hh + h1 + 1) * ww <= (c2 * hh + h2) * ww) by (nonlinear_arith) requires c1 == c2, h1 + 1 <= h2, ww >= 0;
-        assert((c1 * hh + h1 + 1) * ww == (c1 * hh + h1) * ww + ww) by (nonlinear_arith);
-    }
-}
-
 //@def FLAT_CTX
                 rect3(data@, cc, hh, ww), cc >= 1, hh >= 1, ww >= 1, cc * hh * ww < 0x4000_0000_0000_0000,
 //@end
